@@ -315,7 +315,12 @@ static void fill(COM &c, const json &o) { setleaf(c.p, o["p"]); setleaf(c.q, o["
 static COM *mk_com(const json &o) { COM *c = new COM(o["g"].size(), TG.p, TG.q, TG.k, TG.h, FS, GS); fill(*c, o); return c; }
 static GrothSKC *mk_skc(const json &o) {
 	std::stringstream s; { COM t(o["g"].size(), TG.p, TG.q, TG.k, TG.h, FS, GS); t.PublishGroup(s); }
-	GrothSKC *k = new GrothSKC(o["g"].size(), s, 1, FS, GS); fill(*k->com, o); return k;
+	// (the class has no constructor from parameters: the object is made from the export of a commitment scheme the library
+	//  just made - if that text is refused, the library exported something it cannot import)
+	GrothSKC *k = NULL;
+	try { k = new GrothSKC(o["g"].size(), s, 1, FS, GS); }
+	catch (const std::exception &e) { throw std::runtime_error(std::string("EXPORT_NOT_IMPORTABLE: PedersenCommitmentScheme::PublishGroup of a fresh scheme with ") + std::to_string(o["g"].size()) + " generators is refused by the stream constructor of GrothSKC: " + e.what()); }
+	fill(*k->com, o); return k;
 }
 static GrothVSSHE *mk_vsshe(const json &o) {
 	GrothVSSHE *v = new GrothVSSHE(o["com"]["g"].size(), TG.p, TG.q, TG.k, TG.g, TG.h, 1, FS, GS);
